@@ -3,8 +3,8 @@
     The whole-history statement (fsck of the closed image is empty after any op list) is NOT proved:
     it is C04_history below, kept as a comment; the layer theorems are what it is built from, and the
     history level is tied to the implementation byte for byte and judged by the independent fsck. *)
-From Coq Require Import ZArith List Bool Sorted.
-From PyFatV Require Import Base.Bytes Base.PyEnv Gen.Pure Model.Codec Model.Dir Model.FS Proofs.FatTable Proofs.FatCodec.
+From Coq Require Import ZArith List Bool Sorted Lia.
+From PyFatV Require Import Base.Bytes Base.PyEnv Gen.Pure Model.Codec Model.Dir Model.FS Proofs.FatTable Proofs.FatCodec Proofs.Ownership.
 Import ListNotations.
 Open Scope Z_scope.
 
@@ -52,4 +52,42 @@ Print Assumptions C04_chain.
 Theorem C04_fat_codec : forall l, ent_ok 12 l -> parse12 (pack12 l) = l.
 Proof. exact parse12_pack12. Qed.
 
+(** ** The ownership invariant and its preservation by the four FAT operations.
+    [owned lo hi eoc bad fat owns]: every chain in [owns] is well-formed (clusters in [lo,hi], consecutive links, [eoc] in the last
+    one), no cluster occurs twice (no cross-links, no cycles), and every in-range entry that is neither free nor a bad mark
+    belongs to one of the chains (no lost clusters).  For any table size, any number and length of chains.
+    Model operations: [allocate] = scan + [link_chain] (C04_alloc gives the premises of C04_own_alloc), [free_chain] =
+    [free_list] (FREE_CLUSTER = 0), chain extension in [write_data_to_cluster], the cut in [h_truncate]. *)
+Theorem C04_own_alloc : forall lo hi eoc bad, 2 <= lo -> hi < bad -> hi < eoc -> bad <> eoc -> forall fat owns cs,
+  owned lo hi eoc bad fat owns -> cs <> [] -> StronglySorted Z.lt cs ->
+  Forall (fun c => in_range lo hi c /\ nthZ fat c = 0 /\ c < lenZ fat) cs ->
+  owned lo hi eoc bad (link_chain fat cs eoc) (cs :: owns).
+Proof. intros lo hi eoc bad Hlo Hbad Heoc Hbe. exact (owned_alloc lo hi eoc bad Hlo Hbad Heoc Hbe). Qed.
+Print Assumptions C04_own_alloc.
+Theorem C04_own_free : forall lo hi eoc bad, 2 <= lo -> hi < bad -> hi < eoc -> bad <> eoc -> forall fat ch owns,
+  owned lo hi eoc bad fat (ch :: owns) -> Forall (fun c => c < lenZ fat) ch -> owned lo hi eoc bad (free_list fat ch) owns.
+Proof. intros lo hi eoc bad Hlo Hbad Heoc Hbe. exact (owned_free lo hi eoc bad Hlo). Qed.
+Print Assumptions C04_own_free.
+Theorem C04_own_extend : forall lo hi eoc bad, 2 <= lo -> hi < bad -> hi < eoc -> bad <> eoc -> forall fat ch owns cs,
+  owned lo hi eoc bad fat (ch :: owns) -> cs <> [] -> StronglySorted Z.lt cs ->
+  Forall (fun c => in_range lo hi c /\ nthZ fat c = 0 /\ c < lenZ fat) cs ->
+  last ch 0 < lenZ fat ->
+  owned lo hi eoc bad (updZ (link_chain fat cs eoc) (last ch 0) (hd 0 cs)) ((ch ++ cs) :: owns).
+Proof. intros lo hi eoc bad Hlo Hbad Heoc Hbe. exact (owned_extend lo hi eoc bad Hlo Hbad Heoc Hbe). Qed.
+Print Assumptions C04_own_extend.
+Theorem C04_own_cut : forall lo hi eoc bad, 2 <= lo -> hi < bad -> hi < eoc -> bad <> eoc -> forall fat a b owns,
+  owned lo hi eoc bad fat ((a ++ b) :: owns) -> a <> [] -> b <> [] -> Forall (fun c => c < lenZ fat) (a ++ b) ->
+  owned lo hi eoc bad (updZ (free_list fat b) (last a 0) eoc) (a :: owns).
+Proof. intros lo hi eoc bad Hlo Hbad Heoc Hbe. exact (owned_cut lo hi eoc bad Hlo Hbad Heoc Hbe). Qed.
+Print Assumptions C04_own_cut.
+(** non-vacuity: a FAT12 table with two chains 2->3->EOC and 5->EOC, cluster 6 bad, the rest free *)
+Example C04_owned_example : owned 2 8 4095 4087 [4088; 4095; 3; 4095; 0; 4095; 4087; 0; 0] [[2; 3]; [5]].
+Proof.
+  split; [|split].
+  - repeat constructor; unfold in_range; cbn; try lia; reflexivity.
+  - cbn. repeat constructor; cbn; intuition lia.
+  - intros c Hr Hnz Hnb. unfold in_range in Hr. cbn.
+    assert (c = 2 \/ c = 3 \/ c = 4 \/ c = 5 \/ c = 6 \/ c = 7 \/ c = 8) as Hc by lia.
+    destruct Hc as [->|[->|[->|[->|[->|[->| ->]]]]]]; cbn in *; try tauto; try congruence.
+Qed.
 (* C04_history (not proved): forall ops s0, fsck (image s0) = [] -> fsck (image (close (run ops s0))) = []. *)
